@@ -1,6 +1,7 @@
 package fio
 
 import "os"
+import "github.com/XiXi-2024/xixi-kv/verifhook"
 
 // FileIO 标准文件 IO 实现
 type FileIO struct {
@@ -9,6 +10,7 @@ type FileIO struct {
 
 func NewFileIO(fileName string) (*FileIO, error) {
 	// 打开文件, 不存在则创建
+	verifhook.IO(verifhook.IOOpen, fileName, 0)
 	fd, err := os.OpenFile(
 		fileName,
 		os.O_CREATE|os.O_RDWR|os.O_APPEND,
@@ -25,19 +27,23 @@ func (fio *FileIO) Read(b []byte, offset int64) (int, error) {
 }
 
 func (fio *FileIO) Write(b []byte) (int, error) {
+	verifhook.IO(verifhook.IOWrite, fio.fd.Name(), int64(len(b)))
 	return fio.fd.Write(b)
 }
 
 func (fio *FileIO) Sync() error {
+	verifhook.IO(verifhook.IOSync, fio.fd.Name(), 0)
 	return fio.fd.Sync()
 }
 
 func (fio *FileIO) Close() error {
 	// 接口约定关闭之前进行持久化
+	verifhook.IO(verifhook.IOSync, fio.fd.Name(), 0)
 	if err := fio.fd.Sync(); err != nil {
 		_ = fio.fd.Close()
 		return err
 	}
+	verifhook.IO(verifhook.IOClose, fio.fd.Name(), 0)
 	return fio.fd.Close()
 }
 
